@@ -29,6 +29,13 @@ HARNESSES = [
     {"name": "al", "src": "align.cpp", "flags": ["-O1", "-DTETL_ENABLE_CONTRACT_CHECKS=1"]},
     {"name": "alo2", "src": "align.cpp", "flags": ["-O2"]},
     {"name": "alsan", "src": "align.cpp", "flags": ["-O1", "-g0", "-DC02_SAN=1", "-DTETL_ENABLE_CONTRACT_CHECKS=1"] + SAN},
+    # the sub-view / raw-storage leg (sub.cpp; ops sspan / uninit, every other op is `skip` there and these ops are `skip` in
+    # harness.cpp / align.cpp): span sub-views (templated and run-time, static- and dynamic-extent parents) over exact-size heap
+    # buffers, uninitialized_move / copy / fill with an element whose construction throws at slot t.  sbsan is ASan+UBSan WITHOUT
+    # contract checks: an access outside the caller's buffer is seen by the sanitizer itself, not pre-empted by a TETL_PRECONDITION
+    {"name": "sb", "src": "sub.cpp", "flags": ["-O1", "-DTETL_ENABLE_CONTRACT_CHECKS=1"]},
+    {"name": "sbo2", "src": "sub.cpp", "flags": ["-O2"]},
+    {"name": "sbsan", "src": "sub.cpp", "flags": ["-O1", "-g0", "-DC02_SAN=1"] + SAN},
 ]
 # alignment leg: element types of align.cpp (code, sizeof, alignof; t* = trivial) and storage families
 ALIGN_ELEMS = [("s2", 2, 2), ("i4", 4, 4), ("d8", 8, 8), ("ld16", 16, 16), ("i12", 12, 4), ("c3", 3, 1), ("d24", 24, 8),
@@ -39,6 +46,28 @@ ALIGN_PLACEMENTS = (0, 1, 20, 21, 3, 4, 5, 6, 7, 8, 9)
 def _asdef_al(n):
     """default alignment of aligned_storage_t<n> (largest fundamental alignment that fits): which callables fit `fund`"""
     return 16 if n >= 16 else 8 if n >= 8 else 4 if n >= 4 else 2 if n >= 2 else 1
+
+
+def _sub_cases():
+    """sspan: EVERY (N, Offset, Count) of the documented domain for N in 0..6, Count = dynamic_extent (-1) included, for the
+    templated and the run-time sub-views, static- and dynamic-extent parents, two element types; uninit: every throwing slot
+    t in 0..n (t == n: no throw) for n in 0..6, plus one longer run"""
+    out = []
+    for elem in ("c", "i"):
+        for st in (1, 0):
+            for n in range(0, 7):
+                for off in range(0, n + 1):
+                    for cnt in [-1] + list(range(0, n - off + 1)):
+                        out.append(f"sspan sub {elem} {st} {n} {off} {cnt}")
+                        out.append(f"sspan rsub {elem} {st} {n} {off} {cnt}")
+                for cnt in range(0, n + 1):
+                    for kind in ("first", "last", "rfirst", "rlast"):
+                        out.append(f"sspan {kind} {elem} {st} {n} 0 {cnt}")
+    for algo in ("move", "copy", "fill"):
+        for n in list(range(0, 7)) + [13]:
+            for t in range(0, n + 1):
+                out.append(f"uninit {algo} {n} {t}")
+    return out
 
 
 def _align_cases():
@@ -135,14 +164,16 @@ def gen(tier, rng):
         out.append(f"default_init {t}")
     out += _tofloat_cases(tier, rng)
     out += _fromfloat_cases(tier, rng)
-    # copy construction / copy assignment with an element type whose copy constructor throws after <countdown> copies
+    # copy / move construction (modes 0 / 2) and copy / move assignment (1 / 3) with an element type whose copy and move
+    # constructors throw after <countdown> constructions
     for kind in ("sv", "iv"):
-        for assign in (0, 1):
-            for te in ((0,) if not assign else (0, 1, 4)):
+        for assign in (0, 1, 2, 3):
+            for te in ((0,) if assign in (0, 2) else (0, 1, 4)):
                 for se in (0, 1, 3, 4):
                     for cd in range(-1, se + 1):
                         out.append(f"throwing {kind} {assign} {te} {se} {cd}")
     out += _align_cases()
+    out += _sub_cases()
     return out
 
 
